@@ -79,5 +79,8 @@ Definition run_c07 (w : wire) : wire :=
             [0; c_nl c; c_nc c; zn (length (c_ir c))] ++ c_ir c ++ [zn (length (c_jc c))] ++ c_jc c ++
             [zn (length (c_data c))] ++ flat_map w_out (c_data c) ++ outRes (read_csc c)
         | _ => [-1] end)
+  | 8 :: w' => run_dec (do nl <- getZ; do nc <- getZ; do a <- getN; do ir <- getZs a; do b <- getN; do jc <- getZs b;
+                        do c <- getN; do d <- getWords c; ret {| c_nl := nl; c_nc := nc; c_ir := ir; c_jc := jc; c_data := d |}) w'
+                 (fun c => outRes (read_csc c))
   | _ => [-1]
   end.
